@@ -45,6 +45,8 @@ let show_slot = function
 let rec take n l = if n <= 0 then [] else match l with [] -> [] | x :: r -> x :: take (n-1) r
 let join sep l = if l = [] then "-" else String.concat sep l
 
+let lib_mode = ref false
+
 let show_state env w =
   let cls = ref [] in
   let view h = match handle w (nat_of_int h) with
@@ -63,7 +65,9 @@ let show_state env w =
            | None -> "r", "-"
            | Some k ->
              let sz = int_of_nat (esz env k) in
-             (match k with KA -> "a" | KB -> "b"), join "." (List.map show_slot (take (used / sz) b.bslots)) in
+             (match k with KA -> "a" | KB -> "b"),
+             (if !lib_mode then (if used / sz = 0 then "-" else "*" ^ string_of_int (used / sz))
+              else join "." (List.map show_slot (take (used / sz) b.bslots))) in
          Printf.sprintf "%d:%x:%d:%d:%s:%s" c flags (int_of_nat b.bsize) used k elts) in
   String.concat ";" (List.init nh view)
 
@@ -127,7 +131,13 @@ let () =
       match split_ws line with
       | id :: a :: b :: s :: ops ->
         let sub x = String.sub x 1 (String.length x - 1) in
-        let env = { eszA = ni (sub a); eszB = ni (sub b); ehdr = nat_of_int 64; epage = nat_of_int 128 } in
+        (* library element type: L<type>:<size>; events and tokens are not observable there *)
+        let lib, asz = if a.[0] = 'L' then
+            (match String.split_on_char ':' (sub a) with [ty; n] -> Some ty, n | _ -> failwith "header")
+          else None, sub a in
+        lib_mode := lib <> None;
+        let env = { eszA = ni asz; eszB = ni (sub b); ehdr = nat_of_int 64; epage = nat_of_int 128;
+                    ecopyfail = (lib = Some "cmd") } in
         let script = if sub s = "-" then [] else List.init (String.length s - 1) (fun i -> s.[i+1] = '1') in
         let ops = parse_ops ops @ release_all (nat_of_int nh) in
         let w0 = init_world (nat_of_int nh) script in
@@ -140,7 +150,7 @@ let () =
               let n = List.length lg in
               let evs = List.rev (take (n - !prevlen) lg) in
               prevlen := n;
-              Printf.sprintf "%s|%s|%s" (show_out o) (join "," (List.map show_event evs)) (show_state env w)
+              Printf.sprintf "%s|%s|%s" (show_out o) (if !lib_mode then "*" else join "," (List.map show_event evs)) (show_state env w)
             | _ -> faulted := true; "F") results in
         let toks = if !faulted then toks else toks @ [end_ok] in
         Printf.printf "M %s %s\n" id (String.concat " " toks);
@@ -153,7 +163,9 @@ let () =
              | [x] when String.length x >= 3 && String.sub x 0 3 = "end" -> [], Some x
              | x :: r -> let a, e = split r in x :: a, e in
            let obs, e = split it in
-           let verdicts = monitor mon0 (List.map parse_obs obs) in
+           let verdicts = if !lib_mode
+             then List.map (fun t -> if String.length t > 0 && t.[0] = 'F' then Some VFault else None) obs
+             else monitor mon0 (List.map parse_obs obs) in
            let vs = List.map (function None -> "ok" | Some v -> show_viol v) verdicts in
            let all_ok = List.for_all (fun v -> v = "ok") vs && List.length vs = List.length obs in
            let vs = if not all_ok then vs else
